@@ -23,6 +23,7 @@ func (p *Prog) verifyFunction(f *ssa.Function, c *Contract) (res *FnResult) {
 	key := funcKey(f)
 	q := newQ(p, key, c.Arith == "bv")
 	q.props = c.Props
+	q.curProp = p.curProp
 	res = &FnResult{Key: key, Q: q, Contract: c, Fn: f}
 	defer func() {
 		if r := recover(); r != nil {
@@ -185,6 +186,17 @@ func (p *Prog) verifyFunction(f *ssa.Function, c *Contract) (res *FnResult) {
 		}
 	}
 	post := ex.specCtx(vars, hf)
+	var activeEnsures []*Clause
+	for _, e := range c.Ensures {
+		if q.propActive(e.OnlyProp) {
+			activeEnsures = append(activeEnsures, e)
+		}
+	}
+	cOrig := c
+	cc2 := *c
+	cc2.Ensures = activeEnsures
+	c = &cc2
+	_ = cOrig
 	if len(c.Splits) > 0 {
 		// case analysis: every ensures clause is proved separately for each combination of alternatives
 		pre0 := ex.specCtx(ex.paramVars(), h0)
